@@ -157,6 +157,7 @@ func doOne() int {
 // doWitness searches a minimised violation that a listed finding's trigger
 // classifies, and writes it as that finding's witness replay.
 func doWitness() int {
+	sim.WitnessMode = true
 	p := profile()
 	kf := loadKnown(*known, *prop)
 	sim.ForceNoAvoid = true
@@ -215,6 +216,7 @@ func doReplay() int {
 		return fatal("%v", err)
 	}
 	profile()
+	sim.WitnessMode = rp.Known != ""
 	res, tr, logText := execPlan(&rp.Plan)
 	if *dumpLog {
 		fmt.Print(logText)
@@ -429,6 +431,8 @@ func readHashes(path string, into map[uint64]bool) {
 // replayWitnesses re-executes the witness of every finding listed for the
 // property and reports the ones that still fail.
 func replayWitnesses() (confirmed []string) {
+	sim.WitnessMode = true
+	defer func() { sim.WitnessMode = false }()
 	for _, k := range loadKnown(*known, *prop) {
 		if k.witness == "" {
 			continue
